@@ -145,6 +145,74 @@ def verdict_of(r):
 
 
 # ---------------------------------------------------------------------------------------------
+# C01 verdicts agree with the specification
+
+def float_divisor(s):
+    if isinstance(s, dict):
+        for k, v in s.items():
+            if k in ("multipleOf", "divisibleBy") and (isinstance(v, float) or (isinstance(v, int) and not isinstance(v, bool) and v > 2 ** 53)):
+                return True
+            if float_divisor(v):
+                return True
+    elif isinstance(s, list):
+        return any(float_divisor(v) for v in s)
+    return False
+
+
+def c01(ctx):
+    import suite
+    res = ctx.res
+    orc = oracle_mod.Oracle()
+    # (i) the specification itself against the official suite (a disagreement is a defect of the
+    #     specification: infrastructure error, never a violation)
+    bad = []
+    n_suite = 0
+    for tag, f, gd, td, schema, inst, valid in suite.cases():
+        if float_divisor(schema) and f in ("multipleOf.json", "divisibleBy.json") and "small number" in gd:
+            continue      # 0.0075 / 0.0001: no exact binary answer, outside the exact sub-domain (C09)
+        r = ctx.drv.run("SPEC", {"d": tag, "schema": schema, "inst": inst}, orc)
+        n_suite += 1
+        if r["valid"] != valid:
+            bad.append((tag, f, gd, td))
+    res.distribution["suite-cases"] = n_suite
+    if bad:
+        raise RuntimeError("Spec.valid disagrees with the official test suite on %d cases, e.g. %r" % (len(bad), bad[:3]))
+    # (ii) generated reference-free schemas
+    for _ in range(ctx.n(3000)):
+        tag, schema, store, wdocs, info = gen_case(ctx, refs=False, depth=ctx.r.choice([1, 2, 2, 3]))
+        cls = impl.DRAFTS[tag]
+        try:
+            if not accepted(tag, schema):
+                continue
+        except Exception:        # noqa: BLE001
+            continue
+        for _k in range(3):
+            inst = ctx.g.instance_for(tag, schema)
+            case = {"cls": tag, "schema": schema, "inst": inst, "budget": 1}
+            sp = ctx.drv.run("SPEC", {"d": tag, "schema": schema, "inst": inst}, orc)
+            if not sp["shaped"]:
+                res.disagree("SHAPE", case, sp, "accepted", "check_schema accepts a reference-free schema that Spec.shaped rejects")
+                continue
+            in_domain = sp["numSafe"] and sp["typesKnown"] and sp["wf"]
+            try:
+                got = cls(schema).is_valid(inst)
+            except E.UnknownType:
+                res.distribution["unknown-type"] += 1
+                continue
+            except Exception as exc:       # noqa: BLE001
+                res.fail("crash:%s:%s" % (type(exc).__name__, crash_site(exc)), "is_valid raised %s" % type(exc).__name__, case)
+                continue
+            res.note(khash(case), True, case)
+            res.distribution[("valid" if got else "invalid") + ("" if in_domain else "-outside-domain")] += 1
+            if in_domain and got != sp["valid"]:
+                res.fail("verdict:" + tag + ":" + ",".join(sorted(k for k in schema if k in gen.VOCAB[tag]))[:60],
+                         "is_valid = %r but the %s specification says %r" % (got, tag, sp["valid"]), case)
+            m, i = val_pair(ctx, case)
+            if corr.diff(verdict_of(m), verdict_of(i)):
+                res.disagree("VAL", case, verdict_of(m), verdict_of(i), corr.diff(verdict_of(m), verdict_of(i)))
+
+
+# ---------------------------------------------------------------------------------------------
 # C03 totality
 
 DOCUMENTED = {"RefResolutionError", "UnknownType"}
@@ -162,8 +230,13 @@ def c03(ctx):
         res.distribution["accepted" if ok else "rejected"] += 1
         if not ok:
             continue
-        if not refs_are_strings(schema):
+        if not refs_are_strings(schema) or not patterns_compile([schema, store, wdocs]):
             continue
+        # bridge to the theorems' hypothesis: what check_schema accepts is `shapedR`
+        sp = ctx.drv.run("SPEC", {"d": tag, "schema": schema, "inst": None}, oracle_mod.Oracle())
+        if not sp["shapedR"]:
+            res.disagree("SHAPE", {"cls": tag, "schema": schema}, sp, "accepted",
+                         "check_schema accepts a schema that Spec.shapedR rejects: the no-crash theorems do not cover it")
         for _ in range(2):
             inst = ctx.g.instance_for(tag, schema) if ctx.r.random() < 0.8 else ctx.g.value(2)
             fc = ctx.r.choice([None, None, "draft"])
@@ -180,6 +253,20 @@ def c03(ctx):
                     if name not in DOCUMENTED or (name == "UnknownType" and tag != "d3"):
                         if isinstance(exc, RecursionError) and not guarded(schema):
                             continue
+                        # a reference whose target is not a schema is outside the domain: the guarded
+                        # evaluator of JS.Props.C03 (run by the driver) says whether that is what happened
+                        gcase = dict(case, guard=True, fc=None)
+                        wm = impl.World(wdocs or {})
+                        gm = ctx.drv.run("VAL", gcase, oracle_mod.Oracle(fetch=wm.answer))
+                        if gm.get("stop") == ["raised", ["crash", "UNSHAPED-REFERENCE-TARGET"]]:
+                            res.distribution["outside-domain:reference-target-not-a-schema"] += 1
+                            continue
+                        # an unguarded reference cycle (a schema that refers to itself on the same
+                        # instance, e.g. {"$ref": "#"}): behaviour undefined by the drafts; recognised by
+                        # the model running out of fuel on the same case
+                        if isinstance(exc, RecursionError) and gm.get("stop") == ["fuel"]:
+                            res.distribution["outside-domain:unguarded-reference-cycle"] += 1
+                            continue
                         res.fail("crash:%s:%s" % (name, crash_site(exc)),
                                  "%s escaped %s for an accepted schema" % (name, ep),
                                  {"cls": tag, "schema": schema, "inst": inst, "fc": fc, "entry": ep})
@@ -188,6 +275,13 @@ def c03(ctx):
             if fc is None:
                 m, i = val_pair(ctx, case, wdocs)
                 if corr.diff(verdict_of(m), verdict_of(i)):
+                    # outside the domain (a reference designating a non-schema, e.g. `null`, which the
+                    # code happens to read as "the root schema") model and code need not agree
+                    wm = impl.World(wdocs or {})
+                    gm = ctx.drv.run("VAL", dict(case, guard=True), oracle_mod.Oracle(fetch=wm.answer))
+                    if gm.get("stop") == ["raised", ["crash", "UNSHAPED-REFERENCE-TARGET"]]:
+                        res.distribution["outside-domain:reference-target-not-a-schema"] += 1
+                        continue
                     res.disagree("VAL", case, verdict_of(m), verdict_of(i), corr.diff(verdict_of(m), verdict_of(i)))
 
 
@@ -198,6 +292,27 @@ def refs_are_strings(s):
         return all(refs_are_strings(v) for v in s.values())
     if isinstance(s, list):
         return all(refs_are_strings(v) for v in s)
+    return True
+
+
+def patterns_compile(s):
+    """every regular expression used as `pattern` or as a `patternProperties` key compiles (C03's domain)"""
+    import re
+    if isinstance(s, dict):
+        for k, v in s.items():
+            try:
+                if k == "pattern" and isinstance(v, str):
+                    re.compile(v)
+                if k == "patternProperties" and isinstance(v, dict):
+                    for p in v:
+                        re.compile(p)
+            except Exception:        # noqa: BLE001
+                return False
+            if not patterns_compile(v):
+                return False
+        return True
+    if isinstance(s, list):
+        return all(patterns_compile(v) for v in s)
     return True
 
 
@@ -612,6 +727,12 @@ def located_failure(cls, tag, root_schema, root_inst, e, rspec, wdocs):
                     nav.push_scope(sid)
             node = node[step]
         if e.validator is None:
+            # the path of a `false`-schema error ends at the `false`, possibly designated by references
+            hops = 0
+            while isinstance(node, dict) and isinstance(node.get("$ref"), str) and hops < 50:
+                url, node = nav.resolve(node["$ref"])
+                nav.push_scope(url)
+                hops += 1
             if node is not False:
                 return "schema-path-navigation"
         elif not d3_required and not strict_eq(node, e.validator_value):
@@ -1483,6 +1604,9 @@ A_COMMON = ["A-json: instances and schemas are finite trees of JSON values with 
             "correspondence is sampled: agreement of model and implementation on the generated cases is assumed to extend to the others",
             "harness: codec, message templates (render.py), monitors, regen.py translator"]
 
+plan("C01", c01, assumptions=A_COMMON + ["A-regex: re.search as oracle; patterns from the subset on which Python re and ECMA 262 agree",
+                                         "the specification lean/JS/Spec/Valid.lean (validated against the official JSON-Schema-Test-Suite on every run)"],
+     rule="the official suite (reference-free groups) against Spec.valid; then accepted reference-free schemas from each draft's vocabulary (nested applicators, keyword interactions) x 3 schema-directed instances; verdict compared with Spec.valid inside the domain (integer divisors <= 2^53, known type names, distinct keys); every case non-trivial")
 plan("C03", c03, assumptions=A_COMMON + ["A-regex: re.search as oracle", "A-url: urllib.parse functions as oracles"],
      rule="schemas from the draft vocabulary, half of them with 1-2 keyword values replaced by random JSON (kept when check_schema accepts them), x schema-directed and random instances incl. huge numbers, x {no checker, draft checker}, x four entry points; non-trivial = accepted schema, distinct by canonical hash")
 plan("C04", c04, assumptions=A_COMMON + ["A-gc: CPython finalises an abandoned generator immediately"],
